@@ -153,6 +153,18 @@ func (s *ItemSpec) Make() Made {
 		m.Item = errors.New(string(s.Str))
 	case "dur":
 		m.Item = time.Duration(s.Num)
+	case "aggslice":
+		tags := []string{string(s.Str), "tag"}
+		m.Item = AggSlice{Name: "agg", Tags: tags}
+		m.Mutate = func(f Fields) { tags[0] = f.S }
+	case "aggstringer":
+		st := &aggState{S: string(s.Str)}
+		m.Item = AggStringer{st}
+		m.Mutate = func(f Fields) { st.S = f.S }
+	case "aggarrmap":
+		mp := map[string]string{"k": string(s.Str)}
+		m.Item = [1]map[string]string{mp}
+		m.Mutate = func(f Fields) { mp["k"] = f.S }
 	case "fmtuint":
 		m.Item = FmtUint(s.Num)
 	case "fmtint16":
@@ -215,6 +227,20 @@ func (s *ItemSpec) Make() Made {
 	return m
 }
 
+// By-value aggregates that only look immutable at the top level: a struct with a slice field, a value-receiver
+// Stringer wrapping a pointer to its state, an array of maps.  Stored by value in a cell they still share whatever
+// their interior references point at, so after a mutation there and an Update the cell must read the new text.
+type AggSlice struct {
+	Name string
+	Tags []string
+}
+
+type aggState struct{ S string }
+
+type AggStringer struct{ st *aggState }
+
+func (a AggStringer) String() string { return a.st.S }
+
 // Types whose only text method is fmt.Formatter: "anything else is formatted as fmt's %v", and %v asks the operand
 // for Format before anything else.  One per scalar kind, and a struct.
 type FmtUint uint64
@@ -271,6 +297,19 @@ func (s *ItemSpec) TextWith(f *Fields) string {
 		return "<nil NilSafe>"
 	case "cell", "cellptr":
 		return s.Inner.Text()
+	case "aggslice", "aggstringer", "aggarrmap":
+		// by-value aggregates which reach mutable state through an interior reference
+		txt := string(s.Str)
+		if f != nil {
+			txt = f.S
+		}
+		switch s.K {
+		case "aggslice":
+			return fmt.Sprintf("%v", AggSlice{Name: "agg", Tags: []string{txt, "tag"}})
+		case "aggstringer":
+			return txt
+		}
+		return fmt.Sprintf("%v", [1]map[string]string{{"k": txt}})
 	case "typed":
 		ff := *s.F
 		if f != nil {
@@ -421,7 +460,7 @@ func (r *R) AnyItem(fam Fam, maxAtoms, depth int) ItemSpec {
 	case 4:
 		return ItemSpec{K: "bool", Num: int64(r.Intn(2))}
 	case 5:
-		return ItemSpec{K: Pick(r, []string{"mystr", "bytes", "err", "fmtstr"}), Str: Q(r.Str(fam, maxAtoms))}
+		return ItemSpec{K: Pick(r, []string{"mystr", "bytes", "err", "fmtstr", "aggslice", "aggstringer", "aggarrmap"}), Str: Q(r.Str(fam, maxAtoms))}
 	case 6:
 		return ItemSpec{K: Pick(r, []string{"slice", "map", "struct", "structptr", "complex", "complex64", "fmtfloat"}), Str: Q(r.Str(FAscii, 2)), Num: int64(r.Intn(9)), Flt: 1.5}
 	case 7:
